@@ -20,7 +20,8 @@ HEAD = subprocess.run(['git', '-C', '/repo', 'rev-parse', '--short', 'HEAD'], ca
 
 
 def work(w, mine):
-    VS, RS = (f'/tmp/vscore{w}', f'/tmp/rscore{w}') if workers > 1 else ('/tmp/vscore', '/tmp/rscore')
+    # scratch copies are private to this invocation (two scoring runs at once used to share — and wreck — each other's copies)
+    VS, RS = f'/tmp/vscore{os.getpid()}_{w}', f'/tmp/rscore{os.getpid()}_{w}'
     if not inplace:
         subprocess.run(['rsync', '-a', '--delete', '--exclude', '.git', '--exclude', 'replays', '--exclude', 'harmless', '/verif/', VS + '/'], check=True)
         subprocess.run(['git', '-C', '/repo', 'worktree', 'remove', '--force', RS], capture_output=True)
@@ -58,8 +59,7 @@ def work(w, mine):
         summary.append(row)
     if not inplace:
         subprocess.run(['git', '-C', '/repo', 'worktree', 'remove', '--force', RS], capture_output=True)
-        if workers > 1:
-            subprocess.run(['rm', '-rf', VS])
+        subprocess.run(['rm', '-rf', VS])
     return summary
 
 
